@@ -9,7 +9,7 @@
    * No persistent cache file (signac_sp_cache.json.gz) is modelled: _read_cache is a no-op.
    * The lazily cached per-handle fields _path, _document, _stores are derived from (project, id):
      the code resets them for every handle of a cell whenever the id changes; a handle's
-     [_cached_statepoint] is NOT refreshed by the code and is therefore explicit state here.
+     [_cached_statepoint] is explicit state (refreshed by a re-key since fix aa8b5a9).
    * A cell's file name (self.filename) is derived from its first job's (project, id); the code
      keeps the two in step on every path modelled here.
    * Temporary files of the JSON backend are called "._TMP_<name>" (uuid normalised).
@@ -185,12 +185,17 @@ Inductive ev :=
 Inductive fail := FExn (e : exn) | FOs (e : errno).
 Definition res (A : Type) := (A + fail)%type.
 
-Record session := mkS { s_root : path; s_cache : list (str * json) }.
+(* [s_cread] = Project._sp_cache_read: the persistent cache file has been merged into _sp_cache *)
+Record session := mkS { s_root : path; s_cache : list (str * json); s_cread : bool }.
 Record handle := mkH { h_s : nat; h_id : str; h_cached : option json; h_cell : option nat; h_dk : bool }.
 Record cell := mkC { c_data : json; c_jobs : list nat }.
-Record world := mkW { w_fs : fs; w_ss : list session; w_hs : list handle; w_cs : list cell; w_tr : list ev }.
+(* [w_hd]: per handle, the job-document object it holds (Job._document; None = not created yet); shallow
+   copies made afterwards share the object.  [w_ds]: the document objects (BufferedJSONAttrDict): the file
+   they were created for and their in-memory data (which is what a read returns when the file is gone). *)
+Record world := mkW { w_fs : fs; w_ss : list session; w_hs : list handle; w_cs : list cell; w_tr : list ev;
+                      w_hd : list (option nat); w_ds : list (path * json) }.
 
-Definition dS := mkS [] [].
+Definition dS := mkS [] [] false.
 Definition dH := mkH 0 [] None None false.
 Definition dC := mkC (JObj []) [].
 Definition getS (w : world) (i : nat) : session := nth i (w_ss w) dS.
@@ -198,19 +203,27 @@ Definition getH (w : world) (i : nat) : handle := nth i (w_hs w) dH.
 Definition getC (w : world) (i : nat) : cell := nth i (w_cs w) dC.
 
 Definition set_fs (w : world) (f : fs) (e : list ev) : world :=
-  mkW f (w_ss w) (w_hs w) (w_cs w) (w_tr w ++ e).
+  mkW f (w_ss w) (w_hs w) (w_cs w) (w_tr w ++ e) (w_hd w) (w_ds w).
 Definition set_S (w : world) (i : nat) (s : session) : world :=
-  mkW (w_fs w) (set_nth i s (w_ss w)) (w_hs w) (w_cs w) (w_tr w).
+  mkW (w_fs w) (set_nth i s (w_ss w)) (w_hs w) (w_cs w) (w_tr w) (w_hd w) (w_ds w).
 Definition set_H (w : world) (i : nat) (h : handle) : world :=
-  mkW (w_fs w) (w_ss w) (set_nth i h (w_hs w)) (w_cs w) (w_tr w).
+  mkW (w_fs w) (w_ss w) (set_nth i h (w_hs w)) (w_cs w) (w_tr w) (w_hd w) (w_ds w).
 Definition set_C (w : world) (i : nat) (c : cell) : world :=
-  mkW (w_fs w) (w_ss w) (w_hs w) (set_nth i c (w_cs w)) (w_tr w).
+  mkW (w_fs w) (w_ss w) (w_hs w) (set_nth i c (w_cs w)) (w_tr w) (w_hd w) (w_ds w).
 Definition add_S (w : world) (s : session) : world :=
-  mkW (w_fs w) (w_ss w ++ [s]) (w_hs w) (w_cs w) (w_tr w).
+  mkW (w_fs w) (w_ss w ++ [s]) (w_hs w) (w_cs w) (w_tr w) (w_hd w) (w_ds w).
 Definition add_H (w : world) (h : handle) : world :=
-  mkW (w_fs w) (w_ss w) (w_hs w ++ [h]) (w_cs w) (w_tr w).
+  mkW (w_fs w) (w_ss w) (w_hs w ++ [h]) (w_cs w) (w_tr w) (w_hd w ++ [None]) (w_ds w).
 Definition add_C (w : world) (c : cell) : world :=
-  mkW (w_fs w) (w_ss w) (w_hs w) (w_cs w ++ [c]) (w_tr w).
+  mkW (w_fs w) (w_ss w) (w_hs w) (w_cs w ++ [c]) (w_tr w) (w_hd w) (w_ds w).
+Definition getHD (w : world) (h : nat) : option nat := nth h (w_hd w) None.
+Definition getD (w : world) (d : nat) : path * json := nth d (w_ds w) ([], JObj []).
+Definition set_HD (w : world) (h : nat) (o : option nat) : world :=
+  mkW (w_fs w) (w_ss w) (w_hs w) (w_cs w) (w_tr w) (set_nth h o (w_hd w)) (w_ds w).
+Definition set_D (w : world) (d : nat) (x : path * json) : world :=
+  mkW (w_fs w) (w_ss w) (w_hs w) (w_cs w) (w_tr w) (w_hd w) (set_nth d x (w_ds w)).
+Definition add_D (w : world) (x : path * json) : world :=
+  mkW (w_fs w) (w_ss w) (w_hs w) (w_cs w) (w_tr w) (w_hd w) (w_ds w ++ [x]).
 
 Definition wsp (s : session) : path := s_root s ++ [WS].
 Definition jobdir (w : world) (h : handle) : path := wsp (getS w (h_s h)) ++ [h_id h].
@@ -218,7 +231,7 @@ Definition spfile (w : world) (h : handle) : path := jobdir w h ++ [SPF].
 Definition docfile (w : world) (h : handle) : path := jobdir w h ++ [DOCF].
 
 Definition register (w : world) (si : nat) (i : str) (sp : json) : world :=
-  let s := getS w si in set_S w si (mkS (s_root s) (aset i sp (s_cache s))).
+  let s := getS w si in set_S w si (mkS (s_root s) (aset i sp (s_cache s)) (s_cread s)).
 
 (* directory names that project._job_dirs yields: JOB_ID_REGEX.match, i.e. the first 32 characters
    are lower-case hex (a PREFIX match: "<32 hex>.bak" is listed too, finding F2 of the design) *)
@@ -373,13 +386,24 @@ Section WS.
   Definition dest_exists_errno (e : errno) : bool :=
     match e with EEXIST | ENOTEMPTY | EACCES => true | _ => false end.
 
-  (* _StatePointDict._save: the re-key *)
+  (* _cached_statepoint of all handles of a cell := the cell's data (fix aa8b5a9) *)
+  Fixpoint set_cached (w : world) (js : list nat) (d : json) : world :=
+    match js with
+    | [] => w
+    | j :: js' =>
+        let h := getH w j in
+        set_cached (set_H w j (mkH (h_s h) (h_id h) (Some d) (h_cell h) (h_dk h))) js' d
+    end.
+
+  (* _StatePointDict._save: the re-key.  [susp]: _suspend_sync is raised (a nested collection saves the
+     root in the middle of an in-place _update): since fix 3806f72 the method returns at once. *)
   Definition sp_save (susp : bool) (w : world) (ci : nat) : world * res unit :=
     let c := getC w ci in
     let h0 := getH w (hd 0%nat (c_jobs c)) in
     let old_id := h_id h0 in
     let new_id := calc_id frepr (c_data c) in
-    if str_eqb old_id new_id then (w, inl tt)
+    if susp then (w, inl tt)
+    else if str_eqb old_id new_id then (w, inl tt)
     else
       let wsd := wsp (getS w (h_s h0)) in
       let fname := wsd ++ [old_id; SPF] in
@@ -405,7 +429,7 @@ Section WS.
       match phase1 with
       | (w1, inr e) => (w1, inr e)
       | (w1, inl should_init) =>
-          let w2 := set_ids w1 (c_jobs c) new_id in
+          let w2 := set_cached (set_ids w1 (c_jobs c) new_id) (c_jobs c) (c_data c) in
           let tmp' := wsd ++ [new_id; SPT] in
           let un := match unlink (w_fs w2) tmp' with
                     | FOk f => FOk (f, [EvUnlink tmp'])
@@ -434,13 +458,12 @@ Section WS.
         end
     end.
 
-  (* cell.reset(new) *)
+  (* cell.reset(new): _update (the root saves it triggers in its middle return at once, see sp_save) and
+     one save at the end.  [mid_saves] is kept for reference: it is the identity on everything but the
+     cell's data, which the final [set_data] overwrites. *)
   Definition cell_reset (w : world) (ci : nat) (new : json) : world * res unit :=
     let '(snaps, final) := upd_root (c_data (getC w ci)) new in
-    match mid_saves w ci snaps with
-    | (w1, inr e) => (w1, inr e)
-    | (w1, inl _) => sp_save false (set_data w1 ci final) ci
-    end.
+    sp_save false (set_data w ci final) ci.
 
   (* Job.statepoint = new (setter) *)
   Definition assign (w : world) (hi : nat) (new : json) : world * res unit :=
@@ -514,7 +537,7 @@ Section WS.
                 match makedirs (w_fs w) wsd with FOk f => FOk (f, [EvMkdir wsd]) | FErr e => FErr e end in
     match mk with
     | FErr e => (w, inr (FOs e))
-    | FOk (f, e) => (add_S (set_fs w f e) (mkS root []), inl (length (w_ss w)))
+    | FOk (f, e) => (add_S (set_fs w f e) (mkS root [] false), inl (length (w_ss w)))
     end.
 
   Definition add_job (w : world) (ci hj : nat) : world :=
@@ -774,7 +797,7 @@ Section WS.
     | o :: ops' => let '(w1, q1, m) := step w q o in m :: run w1 q1 ops'
     end.
 
-  Definition w0 : world := mkW [] [] [] [] [].
+  Definition w0 : world := mkW [] [] [] [] [] [] [].
 
   (* ------------------------------------------------------------------ predicates used by the theorems *)
   (* a job directory that validates: directory, state point file present, parses, hashes to the name *)
